@@ -20,6 +20,7 @@ void vf_witness(void);
 // allocation accounting (operator new/delete)
 long vf_live_allocs(void);
 long vf_total_allocs(void);
+void vf_new_fail_at(int k);         // the k-th operator new from now on throws std::bad_alloc (0 = never; the default environment never fails)
 void vf_region_begin(void);
 long vf_region_end(void);
 // cooperative thread model (C11; rt/rt.h, rt/native_threads.cpp): std::threads are numbered 1.. in creation order, 0 = the harness thread.
